@@ -5,17 +5,29 @@ import rig
 from rig import Infra
 
 META = {
-    "engine": "AEProduct(AELexer x AEHTMLTok/AEJSLex/AECSSLex)+AEContext+AEConfine",
-    "technique": "TLA+ product automaton of an implementation-shaped model of lexer.scan and a reference WHATWG-HTML/JavaScript/CSS/JSON tokenizer, explored by TLC over a fragment alphabet to the fix-point of the region where the two machines are in step (documents of unbounded length) plus a bounded number of fragments behind every root cause; the shortest document of every product state is built by the real code with a show at every fragment boundary (real ast.Show contexts judged against the reference slots by TLC: candidates and root causes) and every transition out of a synchronised state is replayed against the real lexer; holes of every (context, slot, root cause) class are rendered with a context-breaking value dictionary, and TLC tokenises every rendered output with the reference tokenizers and compares its structure signature with that of the benign rendering",
+    "engine": "AEProduct(AELexer x AEHTMLTok/AEJSLex/AECSSLex)+AEHist+AEMd+AEContext+AEConfine",
+    "technique": "TLA+ product automaton of an implementation-shaped model of lexer.scan and a reference WHATWG-HTML/JavaScript/CSS/JSON tokenizer, explored by TLC over a fragment alphabet to the fix-point of the region where the two machines are in step (documents of unbounded length) plus a bounded number of fragments behind every root cause; the shortest document of every product state is built by the real code with a show at every fragment boundary (real ast.Show contexts judged against the reference slots by TLC: candidates and root causes) and every transition out of a synchronised state is replayed against the real lexer; holes of every (context, slot, root cause) class are rendered with a context-breaking value dictionary, and TLC tokenises every rendered output with the reference tokenizers and compares its structure signature with that of the benign rendering. Two further case spaces are enumerated by TLC: documents with SEVERAL shows (pairs of attribute segments, the renderer's URL state being entered and left by shows and by text; one show is probed, the others are benign), and Markdown template files (every sequence of up to 3 fragments of a Markdown alphabet, holes at every boundary), whose outputs are converted by a CommonMark converter and compared by the structure of the conversion. Every hole class is also reached through macros with an explicit result type of every format and macros imported from files of every other format",
     "level": "model_checking",
-    "level_text": "MC_AEProduct: TLC explores the product of AELexer (lexer.scan transcribed branch by branch) and the reference tokenizers; quick: HTML files, 16 fragments, unbounded behind a root cause; thorough: HTML files with 63 fragments (2 fragments behind a root cause) and 26 fragments (4 behind, product states behind different classes of root causes kept apart), JS, CSS and JSON files with 20/16/12 fragments. States that neither agree nor are confinement-compatible are breaking edges (diagnostic). Context level: the documents form a prefix tree; every node is built by the real lexer with `{{ x }}` appended and Trace_AEContext steps the reference over the tree and computes Agree / Compatible / root cause per node; the context AELexer predicts after every transition out of a synchronised state is compared with the real one (model drift; drifted documents are continued by two more fragments). Confinement level (the verdict): for every reachable (context, URL, slot, attribute kind, root cause) class one hole at the end of a document and up to 2 (quick) / 6 (thorough) holes in front of different next fragments are rendered with ~110 values (strings, numbers, booleans, Stringer, error, slices, maps, structs; the trusted types as negative control), directly and through a macro, an in-place macro, an imported macro and rendered .html/.txt files; Trace_AEConfine requires Signature(output with value) = Signature(output with the benign value of the same type and shape).",
-    "level_note": "Trusted: TLC, the Json module, the reference tokenizers themselves (WHATWG tokenizer with the tree builder's tokenizer switches, without foreign content and noscript; character references are decoded only inside event-handler and style attribute values (numeric and amp/lt/gt/quot/apos); JavaScript lexical grammar with the usual regex heuristic; css-syntax token boundaries), the driver (concretises documents, calls BuildTemplate/Run, reads ast.Show.Context in ExpandedTransformer, logs). URL structure inside URL attributes is not part of the signature; Markdown files are not generated; JS/CSS/JSON files only in the thorough tier; the {% macro %} context stack of the lexer is exercised only through the in-place macro at the hole.",
+    "level_text": "MC_AEProduct: TLC explores the product of AELexer (lexer.scan transcribed branch by branch) and the reference tokenizers; quick: HTML files, 16 fragments, unbounded behind a root cause; thorough: HTML files with 63 fragments (2 fragments behind a root cause) and 26 fragments (4 behind, product states behind different classes of root causes kept apart), JS, CSS and JSON files with 20/16/12 fragments. States that neither agree nor are confinement-compatible are breaking edges (diagnostic). Context level: the documents form a prefix tree; every node is built by the real lexer with `{{ x }}` appended and Trace_AEContext steps the reference over the tree and computes Agree / Compatible / root cause per node; the context AELexer predicts after every transition out of a synchronised state is compared with the real one (model drift; drifted documents are continued by two more fragments). Confinement level (the verdict): for every reachable (context, URL, slot, attribute kind, root cause) class one hole at the end of a document and up to 2 (quick) / 6 (thorough) holes in front of different next fragments are rendered with ~135 values (strings incl. Markdown syntax, numbers, booleans, Stringer, error, slices, maps, structs; the trusted types as negative control), directly, through a macro, an in-place macro, an imported macro and rendered .html/.txt files, and through macros with the result types string/html/css/js/json/markdown and macros imported from .html/.md/.js/.css/.json/.txt files (every pair of macro format and context format); Trace_AEConfine requires Signature(output with value) = Signature(output with the benign value of the same type and shape). MC_AEHist: TLC enumerates the documents `segment` and `segment segment` over attribute segments open-value-close (quick: <a href=\", <a href=, <div title=', <p title= x values of up to 2 pieces of {show, x, ?}; thorough: 6 opens incl. single-quoted and srcset, pieces {show, x, ?, &, #}, optionally a show in text between the segments), checks them well formed with the reference tokenizer, and every show of the last segment is probed with the attribute part of the dictionary while the other shows are benign (same verdict predicate; the signature names what the renderer did before). MC_AEMd: TLC enumerates every sequence of at most 3 fragments of a Markdown alphabet (quick 13, thorough 19 fragments: text, line ending, blank line, heading / quote / list markers, four spaces, tab, fence line, * _ ` [ ]( ) http://e/ <a href=\" \"; no tag open across a line ending) and labels the position at the end of each (block x inline construct); the real context of a hole there is read off the real lexer; holes are selected per (real context, label) and rendered like the others; for a Markdown file the driver also logs the CommonMark conversion of every output (goldmark, raw HTML kept) and Trace_AEConfine compares the signatures of the conversions (without the tags p and br: the layout of text in lines and paragraphs is not structure).",
+    "level_note": "Trusted: TLC, the Json module, the reference tokenizers themselves (WHATWG tokenizer with the tree builder's tokenizer switches, without foreign content and noscript; character references are decoded only inside event-handler and style attribute values (numeric and amp/lt/gt/quot/apos); JavaScript lexical grammar with the usual regex heuristic; css-syntax token boundaries), the driver (concretises documents, calls BuildTemplate/Run, reads ast.Show.Context in ExpandedTransformer, logs). URL structure inside URL attributes is not part of the signature; JS/CSS/JSON files only in the thorough tier; the {% macro %} context stack of the lexer is exercised only through the in-place macro at the hole. Markdown files: goldmark (plain CommonMark, html.WithUnsafe) is trusted as the CommonMark parser the property names; there is no implementation-shaped model of the Markdown part of lexer.scan (scanCodeBlock, URL detection) and no product exploration: the label of a position (MC_AEMd) is coarse and only selects and names holes; GFM extensions (tables, strikethrough, bare-URL autolinks) are not judged; documents with several shows are attribute segments of HTML files only.",
     "design_ref": "7/C06",
 }
 FAMS = ["autoescape"]
 QUICK_FRAGS = list(range(1, 17))
 FULL_FRAGS = list(range(1, 64))
 VIAS = ["macro", "macroin", "import", "render", "rendertxt"]
+# a macro with an explicit result type (its body is a template of that format) and a macro imported from a file of
+# another format, shown at the hole: every (format of the macro, format of the context of the call) pair
+XVIAS = ["macro:string", "macro:html", "macro:css", "macro:js", "macro:json", "macro:markdown",
+         "import:html", "import:md", "import:js", "import:css", "import:json", "import:txt"]
+EXT = {"HTML": "html", "JS": "js", "CSS": "css", "JSON": "json", "MD": "md"}
+# second case space (MC_AEHist): documents with several shows; constants of the quick / thorough tier
+HIST_Q = {"HOpen1": {3, 58, 4}, "HLen1": 2, "HOpen2": {3, 58, 4, 61}, "HLen2": 2, "HPieces": {13, 49}, "HMiddle": {0}, "HProbeAll": False}
+HIST_T = {"HOpen1": {3, 63, 58, 23, 4, 61}, "HLen1": 2, "HOpen2": {3, 63, 58, 23, 4, 61}, "HLen2": 2, "HPieces": {13, 49, 50, 51},
+          "HMiddle": {0, 1}, "HProbeAll": False}
+# Markdown files (MC_AEMd): fragments and maximal number of fragments of a document
+MD_Q = {"MdUse": {13, 14, 65, 64, 66, 67, 53, 28, 35, 71, 38, 3, 7}, "MdLen": 3}
+MD_T = {"MdUse": {13, 14, 65, 64, 66, 67, 53, 28, 35, 71, 38, 3, 7, 12, 68, 69, 70, 72, 73}, "MdLen": 3}
 CN = {0: "Text", 1: "HTML", 2: "CSS", 3: "JS", 4: "JSON", 5: "Markdown", 6: "Tag", 7: "QuotedAttr", 8: "UnquotedAttr",
       9: "CSSString", 10: "JSString", 11: "JSONString", 12: "TabCodeBlock", 13: "SpacesCodeBlock", -2: "inert"}
 
@@ -113,8 +125,25 @@ def text(frags):
     return "".join(rig.b2s(f) for f in frags)
 
 
-def show_doc(frags, hole):
-    return text(frags[:hole]) + "{{HOLE}}" + text(frags[hole:])
+def show_doc(frags, hole, holes=(), after=()):
+    out = []
+    for i in range(len(frags) + 1):
+        out.append("{{ y }}" * sum(1 for h in holes if h == i and i <= hole))
+        if i == hole:
+            out.append("{{HOLE}}")
+        out.append("{{ y }}" * sum(1 for h in after if h == i and i >= hole))
+        if i < len(frags):
+            out.append(rig.b2s(frags[i]))
+    return "".join(out)
+
+
+def case_of(o):
+    """the replayable part of an observation / case"""
+    c = {"id": o["id"], "fmt": o.get("fmt", "HTML"), "frags": o["frags"], "hole": o["hole"], "via": o["via"], "pt": o["pt"]}
+    for k in ("holes", "after", "vset"):
+        if o.get(k):
+            c[k] = o[k]
+    return c
 
 
 # ------------------------------------------------------------------------------------------------ MC
@@ -188,6 +217,20 @@ def model_check(ctx):
         ctx.cov["model_counterexample"] = {"invariants": ["Sync"], "breaking_edges": len(edges),
                                            "roots": [k for k, _ in roots.most_common(40)], "tlc_out": str(res[0][0] / "MC_AEProduct.out")}
     return docs, frags
+
+
+def generate(ctx, module, step, consts, outname, tag):
+    """constant-level case spaces enumerated by TLC (MC_AEHist, MC_AEMd)"""
+    wd = ctx.stage(step, FAMS)
+    rig.write_cfg(wd / (module + ".cfg"), constants=consts)
+    r = ctx.tlc(wd, module, workers=1, timeout=1200)
+    if not r.ok or not (wd / outname).exists():
+        raise Infra(f"{module} did not complete: {wd}/{module}.out\n" + rig.tail(r.out, 25))
+    m = re.search(r'<<\s*"%s",\s*([\d,\s]+)>>' % tag, r.out)
+    recs = rig.read_ndjson(wd / outname)
+    if not m or int(m.group(1).split(",")[-1]) != len(recs):
+        raise Infra(f"{module}: {len(recs)} records exported, TLC printed {m and m.group(1)} ({wd})")
+    return recs
 
 
 # ------------------------------------------------------------------------------------------------ judges
@@ -297,10 +340,14 @@ def context_level(ctx, step, docs, frags, fmt="HTML"):
     return info
 
 
-def holes_of(docs, info, frags):
-    """every observed boundary of every document with its class, as computed by Trace_AEContext"""
+def holes_of(docs, info, frags, closers=None):
+    """every observed boundary of every document with its class, as computed by Trace_AEContext
+       (closers: what completes a whole document, Markdown files only)"""
     for d in docs:
         fb = [frags[f] for f in d]
+        closed = bool(closers and closers.get(tuple(d)))
+        if closed:
+            fb = fb + [closers[tuple(d)]]
         for i in range(len(d) + 1):
             x = info[tuple(d[:i])]
             c = x["ctx"]
@@ -309,7 +356,7 @@ def holes_of(docs, info, frags):
             root = x["root"]
             rk = "none" if "none" in root else json.dumps([root["ctx"], root["slot"], root["kind"], root["toctx"], root["to"], root["tokind"]])
             # a hole at the end of a document that only builds with a closer after the hole gets that closer as suffix
-            yield {"frags": fb + [x["closer"]] if i == len(d) and x.get("closer") else fb,
+            yield {"frags": fb + [x["closer"]] if i == len(d) and x.get("closer") and not closed else fb,
                    "hole": i, "end": i == len(d), "compat": x["compat"], "agree": x["agree"],
                    "pt": {"ctx": CN.get(c, "none"), "url": x["url"], "slot": x["slot"], "kind": x["kind"],
                           "root": "none" if "none" in root else root},
@@ -349,20 +396,35 @@ def confinement_level(ctx, step, cases, selftest=False):
     # native.HTML value (i.e. what a missing escaper would have written): it must be judged bad.
     st = []
     if selftest:
+        def corrupt(o, donor_class, victim_class):
+            donor = next((j for j, x in enumerate(o["outs"]) if x["c"] == donor_class and x["oc"] == "ok"), None)
+            victim = next((j for j, x in enumerate(o["outs"]) if x["c"] == victim_class and x["oc"] == "ok"), None)
+            if donor is None or victim is None:
+                return None
+            c = json.loads(json.dumps(o))
+            for k in ("out", "html"):
+                if k in c["outs"][donor]:
+                    c["outs"][victim][k] = c["outs"][donor][k]
+            c["_victim"] = victim + 1
+            return c
+        nh = nm = 0
         for o in obs:
-            if len(st) >= 3:
-                break
-            if o.get("fmt", "HTML") == "HTML" and o["pt"]["ctx"] == "HTML" and o["pt"]["slot"] == "text" and o["pt"]["root"] == "none" and o["via"] == "direct":
-                donor = next((x for x in o["outs"] if x["c"] == "html" and x["oc"] == "ok"), None)
-                victim = next((x for x in o["outs"] if x["c"] == "word" and x["oc"] == "ok"), None)
-                if donor and victim:
-                    c = json.loads(json.dumps(o))
-                    c["id"] = 9000001 + len(st)
-                    c["outs"][victim["v"]]["out"] = donor["out"]
-                    c["_victim"] = victim["v"] + 1
-                    st.append(c)
-        if not st:
+            syn = o["pt"]["root"] == "none" and o["via"] == "direct" and not o.get("holes") and not o.get("after")
+            c = None
+            if nh < 3 and syn and o.get("fmt", "HTML") == "HTML" and o["pt"]["ctx"] == "HTML" and o["pt"]["slot"] == "text":
+                c = corrupt(o, "html", "word")
+                nh += c is not None
+            # the same for a Markdown paragraph: the CONVERSION of the harmless value is replaced by that of the trusted markdown value
+            elif nm < 2 and syn and o.get("fmt") == "MD" and o["pt"]["ctx"] == "Markdown" and o["pt"]["slot"] == "md-para" and o["pt"]["kind"] == "text":
+                c = corrupt(o, "markdown", "word")
+                nm += c is not None
+            if c:
+                c["id"] = 9000001 + len(st)
+                st.append(c)
+        if not nh:
             raise Infra("sensitivity self-test: no synchronised HTML text hole to corrupt")
+        if not nm and any(o.get("fmt") == "MD" for o in obs):
+            raise Infra("sensitivity self-test: no Markdown paragraph hole to corrupt")
     n = max(2, min(rig.NCPU, 8))
     shard = max(30, -(-(len(obs) + len(st)) // n))
     judged = run_shards(ctx, step, "Trace_AEConfine", obs + st, "judged.ndjson", shard)
@@ -384,19 +446,94 @@ def bads_of(obs, judged):
             oo = o["outs"][b["j"] - 1]
             bb = o["outs"][oo["b"] - 1]
             bads.append({"id": o["id"], "j": b["j"], "sig": b["sig"],
-                         "case": {"id": o["id"], "fmt": o.get("fmt", "HTML"), "frags": o["frags"], "hole": o["hole"], "via": o["via"], "pt": o["pt"]},
-                         "what": {"file": "index" + {"JS": ".js", "CSS": ".css", "JSON": ".json"}.get(o.get("fmt"), ".html"),
-                                  "template": show_doc(o["frags"], o["hole"]), "via": o["via"], "value_class": oo["c"],
+                         "case": case_of(o),
+                         "what": {"file": "index." + EXT.get(o.get("fmt"), "html"),
+                                  "template": show_doc(o["frags"], o["hole"], o.get("holes", ()), o.get("after", ())), "via": o["via"], "value_class": oo["c"],
                                   "rendered": rig.b2s(oo["out"]), "benign": rig.b2s(bb["out"]), "real_context": o["pt"]["ctx"],
-                                  "reference_slot": o["pt"]["slot"] + (":" + o["pt"]["kind"] if o["pt"]["kind"] else "")}})
+                                  "reference_slot": o["pt"]["slot"] + (":" + o["pt"]["kind"] if o["pt"]["kind"] else ""),
+                                  **({"converted": rig.b2s(oo["html"]), "converted_benign": rig.b2s(bb["html"])} if "html" in oo and "html" in bb else {})}})
     return bads
 
 
 # ------------------------------------------------------------------------------------------------ run
+def add_cases(ctx, ccases, fmt, holes, via_seen, xvia_seen):
+    """the confinement cases of the selected holes of one file format"""
+    for h in select(ctx, holes, 1):
+        ccases.append({"id": len(ccases) + 1, "fmt": fmt, "frags": h["frags"], "hole": h["hole"], "via": "direct", "pt": h["pt"]})
+        sync = h["key"][4] == "none" and h["agree"]
+        # the other ways of reaching the hole: quick, once per real (context, url) in a synchronised hole;
+        # thorough, for every (context, url, slot, kind) class
+        vk = (h["key"][:2] + (h["end"],)) if ctx.quick else (h["key"][:4] + (h["end"],))
+        if (not ctx.quick or sync) and vk not in via_seen:
+            via_seen.add(vk)
+            for v in VIAS:
+                ccases.append({"id": len(ccases) + 1, "fmt": fmt, "frags": h["frags"], "hole": h["hole"], "via": v, "pt": h["pt"]})
+        # macros of every other format shown here (the call-site conversion of canOptimizeShowMacro / OpCallMacro):
+        # once per real (context, url) (quick) / (context, url, slot, kind) (thorough) in a synchronised hole
+        xk = h["key"][:2] if ctx.quick else h["key"][:4]
+        if sync and xk not in xvia_seen:
+            xvia_seen.add(xk)
+            for v in XVIAS:
+                # a Markdown macro is converted to block-level HTML where it is shown: in an HTML file it is shown in text only
+                if v in ("macro:markdown", "import:md") and h["pt"]["ctx"] == "HTML" and h["pt"]["slot"] != "text":
+                    continue
+                if v != "import:" + EXT[fmt]:
+                    ccases.append({"id": len(ccases) + 1, "fmt": fmt, "frags": h["frags"], "hole": h["hole"], "via": v, "pt": h["pt"]})
+
+
+def hist_level(ctx, recs, frags, ccases, tot):
+    """MC_AEHist's documents with several shows: the class of every hole comes from the context level; a case is
+       kept when every one of its holes is in a synchronised class (otherwise the single-hole cases already name
+       the root cause)"""
+    docs, seen = [], set()
+    for r in recs:
+        ids = tuple(f for f in r["doc"] if f != 0)
+        if ids not in seen:
+            seen.add(ids)
+            docs.append(list(ids))
+    info = context_level(ctx, "ctxh", docs, frags, "HTML")
+    tot["hist_documents"] += len(docs)
+    for r in recs:
+        ids = [f for f in r["doc"] if f != 0]
+        bnd = {i: sum(1 for f in r["doc"][:i] if f != 0) for i, f in enumerate(r["doc"]) if f == 0}     # position in doc -> boundary
+        pi = r["probe"] - 1
+        xs = [info[tuple(ids[:b])] for b in bnd.values()]
+        if not all(x["ctx"] >= 0 and "none" in x["root"] and x["agree"] and x["compat"] for x in xs):
+            tot["hist_not_synchronised"] += 1
+            continue
+        x = info[tuple(ids[:bnd[pi]])]
+        ccases.append({"id": len(ccases) + 1, "fmt": "HTML", "frags": [frags[f] for f in ids], "hole": bnd[pi],
+                       "holes": [b for i, b in sorted(bnd.items()) if i < pi], "after": [b for i, b in sorted(bnd.items()) if i > pi],
+                       "vset": "attr", "via": "direct",
+                       "pt": {"ctx": CN.get(x["ctx"], "none"), "url": x["url"], "slot": x["slot"], "kind": x["kind"], "root": "none",
+                              "prior": {"open": rig.b2s(frags[r["o1"]]) if r["o1"] else "", "entry": r["e1"], "probe": r["e2"]}}})
+        tot["hist_cases"] += 1
+
+
+def md_level(ctx, recs, frags):
+    """MC_AEMd's documents: real context of a hole at the end of each (driver), label of the position (TLC)"""
+    cfile, ofile = ctx.work / "ctxmd_cases.ndjson", ctx.work / "ctxmd_obs.ndjson"
+    rig.write_ndjson(cfile, [{"id": r["id"], "fmt": "MD", "frags": [frags[f] for f in r["doc"]]} for r in recs])
+    ctx.drive("c06", cfile, ofile, args=["-mode", "ctx"], timeout=1200)
+    real = {o["id"]: o for o in rig.read_ndjson(ofile)}
+    if len(real) != len(recs):
+        raise Infra(f"ctx driver returned {len(real)} observations for {len(recs)} Markdown documents")
+    info = {}
+    for r in recs:
+        o = real[r["id"]]
+        info[tuple(r["doc"])] = {"ctx": o["ctx"], "url": o["url"], "closer": o.get("closer", []), "slot": r["slot"], "kind": r["kind"],
+                                 "agree": 1, "compat": 1, "root": {"none": 1}, "drift": 0, "mctx": ""}
+    return [r["doc"] for r in recs], info, {tuple(r["doc"]): r["close"] for r in recs}
+
+
 def run(ctx, only_case=None):
     if only_case is not None:
         return run_cases(ctx, [only_case], replaying=True)
-    alldocs, frags = model_check(ctx)
+    with ThreadPoolExecutor(max_workers=3) as ex:
+        fh = ex.submit(generate, ctx, "MC_AEHist", "hist", ctx.pick(HIST_Q, HIST_T), "hist_cases.ndjson", "HIST")
+        fm = ex.submit(generate, ctx, "MC_AEMd", "md", ctx.pick(MD_Q, MD_T), "md_docs.ndjson", "MD")
+        alldocs, frags = model_check(ctx)
+        hist_recs, md_recs = fh.result(), fm.result()
     ccases = []
     tot = collections.Counter()
     allclasses, allcand, allroots, drift_notes = set(), set(), set(), []
@@ -464,20 +601,29 @@ def run(ctx, only_case=None):
         allcand |= {(fmt,) + h["key"][:4] for h in holes if not h["compat"]}
         allroots |= {h["key"][4] for h in holes if h["key"][4] != "none"}
         # 2. confinement level: the cases
-        via_seen = set()
-        for h in select(ctx, holes, 1):
-            ccases.append({"id": len(ccases) + 1, "fmt": fmt, "frags": h["frags"], "hole": h["hole"], "via": "direct", "pt": h["pt"]})
-            # the other ways of reaching the hole: quick, once per real (context, url) in a synchronised hole;
-            # thorough, for every (context, url, slot, kind) class
-            vk = (h["key"][:2] + (h["end"],)) if ctx.quick else (h["key"][:4] + (h["end"],))
-            if (not ctx.quick or (h["key"][4] == "none" and h["agree"])) and vk not in via_seen:
-                via_seen.add(vk)
-                for v in VIAS:
-                    ccases.append({"id": len(ccases) + 1, "fmt": fmt, "frags": h["frags"], "hole": h["hole"], "via": v, "pt": h["pt"]})
-    ctx.cov.update(documents=tot["documents"], state_documents=tot["documents"], boundaries=tot["boundaries"],
+        add_cases(ctx, ccases, fmt, holes, set(), set())
+        if fmt == "HTML":
+            # 2b. the second case space: several shows on one renderer
+            hist_level(ctx, hist_recs, frags, ccases, tot)
+    # 2c. Markdown files
+    mdocs, minfo, mclose = md_level(ctx, md_recs, frags)
+    tot["md_documents"] = len(mdocs)
+    for k, v in (("boundaries_not_built", -1), ("boundaries_inert", -2), ("host_panics_ctx", -3)):
+        tot[k] += sum(1 for x in minfo.values() if x["ctx"] == v)
+    mholes = list(holes_of(mdocs, minfo, frags, mclose))
+    mdclasses = {h["key"][:4] for h in mholes}
+    allclasses |= {("MD",) + k for k in mdclasses}
+    n0 = len(ccases)
+    add_cases(ctx, ccases, "MD", mholes, set(), set())
+    ctx.cov.update(documents=tot["documents"], state_documents=tot["documents"], boundaries=tot["boundaries"] + len(minfo),
                    transitions_replayed=tot["transitions_replayed"], boundaries_not_built=tot["boundaries_not_built"],
                    boundaries_inert=tot["boundaries_inert"], host_panics_ctx=tot["host_panics_ctx"],
-                   ctx_slot_pairs=len(allclasses), candidate_pairs=len(allcand), root_causes_seen=len(allroots))
+                   ctx_slot_pairs=len(allclasses), candidate_pairs=len(allcand), root_causes_seen=len(allroots),
+                   multi_show_documents=tot["hist_documents"], multi_show_cases=tot["hist_cases"],
+                   multi_show_cases_not_synchronised=tot["hist_not_synchronised"],
+                   markdown_documents=tot["md_documents"], markdown_hole_classes=len(mdclasses), markdown_cases=len(ccases) - n0)
+    if tot["hist_cases"] == 0:
+        raise Infra("the multi-show case space is empty (no document of MC_AEHist has all its holes in synchronised classes)")
     if drift_notes:
         ctx.cov["model_drift"] = "; ".join(drift_notes) + " (diagnostic; continuations of the drifted documents are explored)"
     else:
@@ -492,23 +638,24 @@ def run_cases(ctx, ccases, replaying=False):
         for k in ("compared", "notshown", "refundef", "trustedchanged"):
             tot[k] += j[k]
     renders = sum(1 for o in cobs for x in o["outs"] if x["oc"] == "ok")
-    nontrivial = {(o.get("fmt"), text(o["frags"]), o["hole"], o["via"], x["v"]) for o in cobs for x in o["outs"]
-                  if x["oc"] == "ok" and x["b"] - 1 != x["v"] and x["out"] != o["outs"][x["b"] - 1]["out"]}
+    nontrivial = {(o.get("fmt"), text(o["frags"]), o["hole"], tuple(o.get("holes", ())), tuple(o.get("after", ())), o["via"], x["v"])
+                  for o in cobs for j, x in enumerate(o["outs"])
+                  if x["oc"] == "ok" and x["b"] - 1 != j and x["out"] != o["outs"][x["b"] - 1]["out"]}
     ctx.cov.update(confinement_cases=len(ccases), evaluations=renders + ctx.cov.get("boundaries", 0),
                    renders=renders, comparisons=tot["compared"], values_not_shown=tot["notshown"], ref_undefined=tot["refundef"],
                    trusted_values_changed_structure=tot["trustedchanged"], host_panics=sum(1 for o in cobs for x in o["outs"] if x["oc"] == "hostpanic"),
                    traces_validated_against_impl=ctx.cov.get("documents", 0) + len(cobs),
                    distinct_nontrivial=len(nontrivial), exhaustive=True,
-                   rule="documents: the shortest fragment sequence reaching every reachable product state (and, thorough, every transition out of it), exported by TLC; holes: every fragment boundary (context level), one to three per (context, URL, slot, kind, root cause) class at the end of a document and in front of a suffix (confinement level) x 6 ways of reaching the hole x the value dictionary; a render is non-trivial when its bytes differ from the benign rendering",
-                   samples=[{"template": show_doc(o["frags"], o["hole"]), "via": o["via"], "context": o["pt"]["ctx"], "slot": o["pt"]["slot"],
+                   rule="documents: the shortest fragment sequence reaching every reachable product state (and, thorough, every transition out of it), exported by TLC; holes: every fragment boundary (context level), one to three per (context, URL, slot, kind, root cause) class at the end of a document and in front of a suffix (confinement level) x 6 + 11 ways of reaching the hole x the value dictionary; plus every (document of MC_AEHist, probed show) and the holes of every (real context, label) class of the Markdown documents of MC_AEMd; a render is non-trivial when its bytes differ from the benign rendering",
+                   samples=[{"template": show_doc(o["frags"], o["hole"], o.get("holes", ()), o.get("after", ())), "via": o["via"], "context": o["pt"]["ctx"], "slot": o["pt"]["slot"],
                              "value": x["c"], "rendered": rig.b2s(x["out"])}
                             for o in rig.pick_samples(cobs, 4, ctx.seed) for x in o["outs"][7:8]])
     if not replaying and tot["trustedchanged"] == 0:
         raise Infra("negative control failed: no trusted value changed any structure signature (signature insensitive?)")
     bads = bads_of(cobs, judged)
     hp = [{"id": o["id"], "sig": {"fam": "autoescape", "hostpanic": x["c"], "ctx": o["pt"]["ctx"]},
-           "case": {"id": o["id"], "fmt": o.get("fmt", "HTML"), "frags": o["frags"], "hole": o["hole"], "via": o["via"], "pt": o["pt"]},
-           "what": {"template": show_doc(o["frags"], o["hole"]), "hostpanic": x["c"]}}
+           "case": case_of(o),
+           "what": {"template": show_doc(o["frags"], o["hole"], o.get("holes", ()), o.get("after", ())), "via": o["via"], "hostpanic": x["c"]}}
           for o in cobs for x in o["outs"] if x["oc"] == "hostpanic"]
     ctx.cov["judged_bad_first_pass"] = len(bads)
     # 3. reproduction guard (for what would be reported as a violation): one exemplar per distinct
@@ -529,7 +676,7 @@ def run_cases(ctx, ccases, replaying=False):
         confirmed += conf_u
     def rw(rdir, b):
         (rdir / "case.json").write_text(json.dumps(b["case"]))
-        (rdir / "source.html").write_text(show_doc(b["case"]["frags"], b["case"]["hole"]))
+        (rdir / "source.html").write_text(show_doc(b["case"]["frags"], b["case"]["hole"], b["case"].get("holes", ()), b["case"].get("after", ())))
     return ctx.report(confirmed + hp, replay_writer=rw)
 
 
@@ -538,5 +685,6 @@ def replay(ctx, path):
     return run(ctx, only_case=c)
 
 
-# the findings of this check are in known-findings.json (kind "known" / "fixed"); _PROPOSED_BY_THE_BUILD documents the original list
-PROPOSED_KNOWN = []
+# the findings of this check are in known-findings.json (kind "known" / "fixed"); _PROPOSED_BY_THE_BUILD documents the original list.
+# Demonstrated by the Markdown files added in the strengthening round (not yet in known-findings.json):
+PROPOSED_KNOWN = []   # integrated into known-findings.json
